@@ -36,6 +36,7 @@ type History struct {
 	OnlyT          crashsim.Tear  `json:"only_tear,omitempty"`
 	Growth         bool           `json:"growth"` // post-recovery growth phase
 	MaxCrashPoints int            `json:"max_points"`
+	PostCrash      bool           `json:"post_crash,omitempty"` // after the post-recovery statements: crash again (nothing flushed), restart, and require those statements' effects
 }
 
 type Stats struct {
@@ -467,9 +468,33 @@ func (run *Run) CheckImage(img crashsim.Image, k int, tear crashsim.Tear, st *St
 			base = allowed[chosen]
 		}
 		// (c) the database accepts new statements
-		if ff := smoke(db, base.Clone(), run.H, where); ff != nil {
+		sm := base.Clone()
+		if ff := smoke(db, sm, run.H, where); ff != nil {
 			v.Prop = "C01"
 			return ff
+		}
+		// (d) what those statements committed survives a further crash and restart
+		if run.H.PostCrash {
+			stop()
+			var db2 *dbh.DB
+			if ff := vf.Guard(func() *vf.Failure { db2 = dbh.Open(name, run.H.KB, true); return nil }); ff != nil {
+				v.Prop = "C01"
+				ff.Class = "restart-after-new-work-" + ff.Class
+				ff.Msg = where + ": restart after the post-recovery statements failed: " + ff.Msg
+				return ff
+			}
+			defer func() { func() { defer func() { recover() }(); db2.Stop() }() }()
+			for _, def := range run.H.Tables {
+				rows, err := db2.ScanAll(def.Name)
+				if err != nil {
+					v.Prop = "C01"
+					return vf.Failf("post-recovery-work-lost", "%s: after the post-recovery statements, a crash and a restart: scan of %s failed: %v", where, def.Name, err)
+				}
+				if d := dbh.MultisetDiff(rows, sm.Tables[def.Name].Rows); d != "" {
+					v.Prop = "C01"
+					return vf.Failf("post-recovery-work-lost", "%s: statements committed after the recovery did not survive a further crash and restart: table %s: %s", where, def.Name, d)
+				}
+			}
 		}
 		return nil
 	})
